@@ -18,6 +18,11 @@ import (
 type History struct {
 	peers map[string]*peerHist
 	fail  *Failure
+	// LogVV, when set, returns the pointwise maximum of the version vectors
+	// (and the maximum lamport) of the stored changes with serverSeq <= upTo.
+	// It is what a replica that received a snapshot at that checkpoint has
+	// "seen", independently of the vector the snapshot response claims.
+	LogVV func(upTo int64) (time.VersionVector, int64)
 	// Counters for classification.
 	Responses, SnapshotResponses, MinVVChecks, CausalChecks int
 }
@@ -197,6 +202,13 @@ func (h *History) OnExchange(p *Peer, ex *world.Exchange) {
 		ph.seenVV.Max(&res.VersionVector)
 		if l := res.VersionVector.MaxLamport(); l > ph.seenLamp {
 			ph.seenLamp = l
+		}
+		if h.LogVV != nil {
+			vv, lamp := h.LogVV(res.Checkpoint.ServerSeq)
+			ph.seenVV.Max(&vv)
+			if lamp > ph.seenLamp {
+				ph.seenLamp = lamp
+			}
 		}
 	} else {
 		for _, c := range res.Changes {
